@@ -279,7 +279,7 @@ fn lru_op<K: KeyLike, E: OnEvictCallback, S: BuildHasher>(c: &mut RawLRU<K, TVal
     match op {
         Op::Lens => Out::Nums(vec![c.len() as u64, c.cap() as u64]),
         Op::Debug => Out::Text(format!("{:?}", c)),
-        Op::Resize(n) => Out::Num(c.resize(*n as usize)),
+        Op::Resize(n) => Out::Num(c.resize(resize_target(*n))),
         Op::GetLru => kvo(c.get_lru()),
         Op::GetMru => kvo(c.get_mru()),
         Op::GetLruMut(w) => kvmo(c.get_lru_mut(), *w, i),
@@ -552,6 +552,24 @@ impl<K: KeyLike> Sut<K> {
             _ => return None,
         };
         Some(Sut { kind: self.kind, c, cb: if self.cb == Some(ZST_CB) { Some(ZST_CB) } else if has_cb { last_cb_id() } else { None } })
+    }
+
+    /// `Clone::clone_from`: make `self` (any configuration of the same kind) a copy of `src`
+    pub fn clone_from_other(&mut self, src: &Sut<K>) -> bool {
+        match (&mut self.c, &src.c) {
+            (SutC::Lru(a), SutC::Lru(b)) => a.clone_from(b),
+            (SutC::LruCb(a), SutC::LruCb(b)) => a.clone_from(b),
+            (SutC::LruCbD(a), SutC::LruCbD(b)) => a.clone_from(b),
+            (SutC::Seg(a), SutC::Seg(b)) => a.clone_from(b),
+            (SutC::Wtl(a), SutC::Wtl(b)) => a.clone_from(b),
+            _ => return false,
+        }
+        if src.cb == Some(ZST_CB) {
+            self.cb = Some(ZST_CB);
+        } else if src.cb.is_some() {
+            self.cb = last_cb_id();
+        }
+        true
     }
 
     pub fn view(&self) -> View {
